@@ -37,8 +37,8 @@ CHECKS = {
                 ref='3/C06'),
     'C07': dict(cat='other', engine='E2',
                 technique='bounded symbolic execution of the real IterativeSolver stopping logic and of real Richardson/PCG/BiCGStab/PCR objects over a symbolic real scalar; z3 decides status => predicate implications and reported-defect == true-residual identities',
-                text='Partial (stated): (A) 12 scenarios drive the real stopping-criterion state machine to every status with symbolic tolerances/defects; z3 decides that each returned status implies its documented predicate under the recorded path conditions. (B) real solver objects on symbolic 2x2 (thorough 3x3) systems: final defect == |b-Ax| of the returned vector, rhs untouched, apply ignores / correct honours the start vector, repeated solves coincide (incl. stagnation-counter reset).',
-                note='Trusted: SymReal, DAG printer, z3 5.1.0, sqrt as algebraic unknown. Exact real arithmetic; iteration limit < n for Krylov methods (exact termination is degenerate). Outside: convergence to reference solutions, conditioning, GMRES/IDRS/RGCR/Chebyshev families, rounding drift of recurrence residuals.',
+                text='Partial (stated): (A) 12 scenarios drive the real stopping-criterion state machine to every status with symbolic tolerances/defects; z3 decides that each returned status implies its documented predicate under the recorded path conditions. (B) real solver objects on symbolic 2x2 (thorough 3x3) systems: final defect == |b-Ax| of the returned vector, rhs untouched, apply ignores / correct honours the start vector, repeated solves coincide (incl. stagnation-counter reset); the same for FGMRES, GMRES, BiCGStab(l), IDR(s), RGCR, PMR, PSD, PCGNR, each solve probed for reads of uninitialised work vectors.',
+                note='Trusted: SymReal, DAG printer, z3 5.1.0, sqrt as algebraic unknown. Exact real arithmetic; iteration limit < n for Krylov methods (exact termination is degenerate). One defect found and fixed (BiCGStab(l) read an uninitialised work vector). Outside: convergence to reference solutions, conditioning, Chebyshev, the pipelined CG / RBiCGStab variants (Global::Vector only), rounding drift of recurrence residuals.',
                 ref='3/C07'),
     'C08': dict(cat='other', engine='E2',
                 technique='bounded symbolic execution of the real preconditioner objects over a symbolic real scalar; z3 (NRA) decides multiply-back identities against textbook operators and an independent dense ILU(p)',
